@@ -23,8 +23,8 @@ func init() {
 	core.Register(&core.Prop{
 		ID:       "C17",
 		Title:    "Rune-aware string helpers never split a rune and match rune-slice definitions",
-		Quick:    20000,
-		Thorough: 600000,
+		Quick:    100000,
+		Thorough: 3000000,
 		Gen:      gen,
 		Corpus:   corpus,
 		Impl:     impl,
@@ -44,7 +44,7 @@ func init() {
 			}
 			return false
 		},
-		Rule:     "one subject string built from the fragments {a,B,_,1,é,你,😀,\\xff,\\xe4\\xbd} (or a snake_case identifier / a near-miss of one) and 1..8 calls on it with arguments 0..runeCount+3 (and -1 for Sub's length); non-trivial = the subject contains a multi-byte rune or an invalid byte, or is a grammar identifier with at least one underscore; distinct by hash of subject+ops",
+		Rule:     "one subject string and 1..8 independent calls on it. Streams: mixed = 0..9 fragments of {a,B,_,1,é,你,😀,\\xff,\\xe4\\xbd}; edge = the same mixed 50/50 with boundary scalars of every encoded length (U+7F,U+80,U+7FF,U+800,U+D7FF,U+E000,U+FFFD,U+FFFF,U+10000,U+10FFFF) and malformed sequences (lone continuation, truncated 2/3/4-byte, overlong, surrogate, >U+10FFFF, 0xf8); ident = words of the grammar [a-z][a-z0-9]*(_[a-z][a-z0-9]*)*; ident-mutated = one insertion of _,A,Z,1,é,你,\\xff,_1 into such a word. Arguments 0..runeCount+3 (35% within ±1..3 of the end), -1 for Sub's length, 2% negative (correspondence only). Corpus: every string of ≤ 3 fragments with every in-scope argument. Non-trivial = the subject contains a multi-byte rune or an invalid byte, or is a grammar identifier with at least one underscore; distinct by hash of subject+ops",
 		Classify: classify,
 		Parallel: true,
 		Assumptions: []string{
@@ -55,6 +55,12 @@ func init() {
 }
 
 var frags = []string{"a", "B", "_", "1", "é", "你", "😀", "\xff", "\xe4\xbd"}
+
+// boundary scalar values of every encoded length, and malformed sequences of every kind
+// (lone continuation, truncated 2/3/4-byte forms, overlong, surrogate, beyond U+10FFFF)
+var edgeFrags = []string{"\x7f", "\u0080", "\u07ff", "\u0800", "\ud7ff", "\ue000", "\ufffd", "\uffff",
+	"\U00010000", "\U0010ffff", "z", "Z", "A", "0", "9",
+	"\x80", "\xc3", "\xe4\xbd", "\xf0\x9f\x98", "\xc0\x80", "\xe0\x80\x80", "\xed\xa0\x80", "\xf4\x90\x80\x80", "\xf8"}
 
 var identRe = regexp.MustCompile(`^[a-z][a-z0-9]*(_[a-z][a-z0-9]*)*$`)
 
@@ -88,7 +94,7 @@ func mk(s string, ops ...string) core.Case {
 // allOps lists every call with every in-scope argument for a subject string.
 func allOps(s string) []string {
 	n := utf8.RuneCountInString(s)
-	ops := []string{"rev", "len", "ucfirst", "lcfirst", "c2s", "s2c true", "s2c false", "round true", "round false"}
+	ops := []string{"rev", "len", "ucfirst", "lcfirst", "c2s", "isident", "s2c true", "s2c false", "round true", "round false"}
 	for a := 0; a <= n+3; a++ {
 		for b := -1; b <= n+3; b++ {
 			ops = append(ops, fmt.Sprintf("sub %d %d", a, b))
@@ -123,7 +129,7 @@ func corpus() []core.Case {
 		mk("é_a你_b", "s2c true", "s2c false", "c2s", "round true"),
 		mk("AéB", "c2s", "lcfirst", "ucfirst"),
 	}
-	// every string of ≤ 2 fragments with every in-scope argument
+	// every string of ≤ 3 fragments with every in-scope argument
 	var rec func(prefix string, depth int)
 	rec = func(prefix string, depth int) {
 		cs = append(cs, mk(prefix, allOps(prefix)...))
@@ -135,15 +141,19 @@ func corpus() []core.Case {
 		}
 	}
 	for _, f := range frags {
-		rec(f, 1)
+		rec(f, 2)
 	}
 	return cs
 }
 
-func genMixed(r *core.Rand) string {
+func genMixed(r *core.Rand, edge bool) string {
 	n := r.Range(0, 9)
 	var sb strings.Builder
 	for i := 0; i < n; i++ {
+		if edge && r.Chance(50) {
+			sb.WriteString(edgeFrags[r.Intn(len(edgeFrags))])
+			continue
+		}
 		sb.WriteString(frags[r.Pick(3, 2, 2, 1, 3, 3, 3, 3, 2)])
 	}
 	return sb.String()
@@ -183,8 +193,10 @@ func gen(r *core.Rand, tier string) core.Case {
 	var s, tag string
 	if r.Chance(25) {
 		s, tag = genIdent(r)
+	} else if r.Chance(25) {
+		s, tag = genMixed(r, true), "edge"
 	} else {
-		s, tag = genMixed(r), "mixed"
+		s, tag = genMixed(r, false), "mixed"
 	}
 	n := utf8.RuneCountInString(s)
 	arg := func() int {
@@ -198,13 +210,13 @@ func gen(r *core.Rand, tier string) core.Case {
 	}
 	lines := []string{"@ C17 s " + hx(s)}
 	k := r.Range(1, 8)
-	ident := tag != "mixed"
+	ident := tag == "ident" || tag == "ident-mutated"
 	for i := 0; i < k; i++ {
 		var w []int
 		if ident {
-			w = []int{6, 4, 4, 2, 2, 3, 3, 3, 10, 8, 16}
+			w = []int{6, 4, 4, 2, 2, 3, 3, 3, 10, 8, 16, 6}
 		} else {
-			w = []int{22, 18, 18, 8, 4, 10, 3, 3, 4, 4, 4}
+			w = []int{22, 18, 18, 8, 4, 10, 3, 3, 4, 4, 4, 1}
 		}
 		switch r.Pick(w...) {
 		case 0:
@@ -246,7 +258,11 @@ func gen(r *core.Rand, tier string) core.Case {
 		case 5:
 			set := ""
 			for j := r.Range(0, 3); j > 0; j-- {
-				set += frags[r.Intn(len(frags))]
+				if tag == "edge" && r.Bool() {
+					set += edgeFrags[r.Intn(len(edgeFrags))]
+				} else {
+					set += frags[r.Intn(len(frags))]
+				}
 			}
 			if r.Chance(10) {
 				set += "�"
@@ -262,6 +278,8 @@ func gen(r *core.Rand, tier string) core.Case {
 			lines = append(lines, "c2s")
 		case 10:
 			lines = append(lines, "round "+strconv.FormatBool(r.Bool()))
+		case 11:
+			lines = append(lines, "isident")
 		}
 	}
 	return core.Case{Lines: lines, Tag: tag}
@@ -306,6 +324,9 @@ func call(s string, t []string) string {
 		return hx(strz.LcFirst(s))
 	case len(t) == 1 && t[0] == "c2s":
 		return hx(strz.CamelCaseToSnake(s))
+	case len(t) == 1 && t[0] == "isident":
+		// not a call into /repo: ties the Lean grammar of the round-trip theorem to identRe
+		return strconv.FormatBool(identRe.MatchString(s))
 	case len(t) == 2 && t[0] == "remove":
 		set, ok := unhx(t[1])
 		if !ok {
@@ -408,6 +429,9 @@ func check(c core.Case, out []string) *core.Failure {
 		}
 		if out[i] == "panic" {
 			return &core.Failure{Key: fn + "-panic", Desc: fmt.Sprintf("%s on %q (%s) with %v panics; the property says none of these functions panics on any input", fn, s, c.Lines[i], t[1:])}
+		}
+		if fn == "isident" {
+			continue // harness regexp vs Lean automaton: decided by the correspondence diff
 		}
 		if fn == "len" {
 			if valid && out[i] != strconv.Itoa(n) {
